@@ -24,6 +24,13 @@ class Individual(metaclass=ABCMeta):
         if state == cls.State.FAILED:
             return 'failed'
 
+    @classmethod
+    def from_string(cls, string):
+        for state in cls.State:
+            if cls.to_string(state) == string:
+                return state
+        return string
+
     counter: int = 0
 
     def __init__(self, vector: list = None):
@@ -178,7 +185,7 @@ class Individual(metaclass=ABCMeta):
 
         individual.vector = dictionary['vector']
         individual.costs = dictionary['costs']
-        individual.state = dictionary['state']
+        individual.state = Individual.from_string(dictionary['state'])
         individual.costs_signed = dictionary['costs_signed']
         individual.population_id = dictionary['population_id']
         individual.algorithm_id = dictionary['algorithm_id']
